@@ -40,39 +40,60 @@ fn main() {
     if cmd == "record" || cmd == "replay" || cmd == "rerun" {
         drv_decode::start_watchdog(a.str("out", "-"), a.num("hang_s", 20));
     }
-    match (cmd.as_str(), family.as_str()) {
-        ("record", "frame_new") => drv_frame::rec_frame_new(&a, &mut out),
-        ("record", "sfx") => drv_frame::rec_sfx(&a, &mut out),
-        ("record", "scan") => drv_frame::rec_scan(&a, &mut out),
-        ("record", "stream") => drv_frame::rec_stream(&a, &mut out),
-        ("record", "corrupt") => drv_frame::rec_corrupt(&a, &mut out),
-        ("record", "link") => drv_frame::rec_link(&a, &mut out),
-        ("record", "bits") => drv_bits::rec_bits(&a, &mut out),
-        ("record", "build") => drv_build::rec_build(&a, &mut out),
-        ("record", "history") => drv_build::rec_history(&a, &mut out),
-        ("record", "decode") => drv_decode::rec_decode(&a, &mut out),
-        ("record", "classify") => drv_decode::rec_classify(&a, &mut out),
-        ("record", "roundtrip") => drv_rt::rec_roundtrip(&a, &mut out),
-        ("record", "fields") => drv_fields::rec_fields(&a, &mut out),
-        ("record", "probes") => drv_fields::rec_probes(&a, &mut out),
-        ("record", "sigtable") => drv_sig::rec_sigtable(&a, &mut out),
-        ("record", "msm") => drv_msm::rec_msm(&a, &mut out),
-        ("record", "bias") => drv_bias::rec_bias(&a, &mut out),
-        ("record", "lists") => drv_lists::rec_lists(&a, &mut out),
-        ("record", "text") => drv_text::rec_text(&a, &mut out),
-        ("record", "serde") => drv_serde::rec_serde(&a, &mut out),
-        ("record", "corpus") => drv_corpus::rec_corpus(&a, &mut out),
-        ("rerun", "events") => rerun::rerun(&a, &mut out),
-        ("debug", "extremes") => drv_build::debug_extremes(&a),
-        ("replay", "frames") => drv_frame::replay_frames(&a, &mut out),
-        ("replay", "stream") => drv_frame::replay_stream(&a, &mut out),
-        ("replay", "histories") => drv_build::replay_histories(&a, &mut out),
+    // every library call the drivers make is wrapped individually (`guarded`); should one slip through, a panic raised inside
+    // the library (location = an absolute path outside the toolchain and the registry) still becomes a trace event, which
+    // no trace specification accepts; a panic of the harness' own code stays a crash (tool error)
+    let run = std::panic::catch_unwind(std::panic::AssertUnwindSafe(|| dispatch(&cmd, &family, &a, &mut out)));
+    if let Err(_) = run {
+        let msg = take_last_panic().unwrap_or_else(|| "panic".into());
+        let loc = msg.rsplit(" @ ").next().unwrap_or("").to_string();
+        let in_library = loc.starts_with('/') && !loc.contains("/rustc/") && !loc.contains("/.cargo/") && !loc.contains("/registry/") && !loc.contains("/verif/harness/");
+        if in_library && cmd == "record" {
+            out.emit(serde_json::json!({"ev": "UncaughtLibraryPanic", "family": family, "panic": msg}));
+            out.finish();
+            eprintln!("{} {}: library panic outside a guarded call: {}", cmd, family, msg);
+            return;
+        }
+        eprintln!("harness panic: {}", msg);
+        std::process::exit(101);
+    }
+    let n = out.lines;
+    out.finish();
+    eprintln!("{} {}: {} lines", cmd, family, n);
+}
+
+fn dispatch(cmd: &str, family: &str, a: &Args, out: &mut Out) {
+    let (a, out) = (a, out);
+    match (cmd, family) {
+        ("record", "frame_new") => drv_frame::rec_frame_new(a, out),
+        ("record", "sfx") => drv_frame::rec_sfx(a, out),
+        ("record", "scan") => drv_frame::rec_scan(a, out),
+        ("record", "stream") => drv_frame::rec_stream(a, out),
+        ("record", "corrupt") => drv_frame::rec_corrupt(a, out),
+        ("record", "link") => drv_frame::rec_link(a, out),
+        ("record", "bits") => drv_bits::rec_bits(a, out),
+        ("record", "build") => drv_build::rec_build(a, out),
+        ("record", "history") => drv_build::rec_history(a, out),
+        ("record", "decode") => drv_decode::rec_decode(a, out),
+        ("record", "classify") => drv_decode::rec_classify(a, out),
+        ("record", "roundtrip") => drv_rt::rec_roundtrip(a, out),
+        ("record", "fields") => drv_fields::rec_fields(a, out),
+        ("record", "probes") => drv_fields::rec_probes(a, out),
+        ("record", "sigtable") => drv_sig::rec_sigtable(a, out),
+        ("record", "msm") => drv_msm::rec_msm(a, out),
+        ("record", "bias") => drv_bias::rec_bias(a, out),
+        ("record", "lists") => drv_lists::rec_lists(a, out),
+        ("record", "text") => drv_text::rec_text(a, out),
+        ("record", "serde") => drv_serde::rec_serde(a, out),
+        ("record", "corpus") => drv_corpus::rec_corpus(a, out),
+        ("rerun", "events") => rerun::rerun(a, out),
+        ("debug", "extremes") => drv_build::debug_extremes(a),
+        ("replay", "frames") => drv_frame::replay_frames(a, out),
+        ("replay", "stream") => drv_frame::replay_stream(a, out),
+        ("replay", "histories") => drv_build::replay_histories(a, out),
         _ => {
             eprintln!("usage: rtcm_conf record|replay <family> key=value...");
             std::process::exit(2);
         }
     }
-    let n = out.lines;
-    out.finish();
-    eprintln!("{} {}: {} lines", cmd, family, n);
 }
